@@ -364,7 +364,7 @@ Qed.
 Lemma step_good s o :
   ugood s -> ugood (fst (step s o)) /\ (wgood s -> op_wf o = true -> wgood (fst (step s o))).
 Proof.
-  intros U. destruct o as [inv|p rq|p|p|p|p al| |p al|p]; cbn [step].
+  intros U. destruct o as [inv|p rq|p|p|p|p al| |p al|p|p rq vs]; cbn [step].
   - (* refresh *) cbn [fst]. split.
     + eapply ugood_refresh; eauto; reflexivity.
     + intros W Hwf. eapply wgood_refresh; eauto; try reflexivity. now apply healthy_nonneg.
@@ -417,4 +417,5 @@ Proof.
     destruct (lookup p (envrec s)) as [[da b]|] eqn:L; cbn [fst]; auto. split.
     + eapply ugood_rm; eauto; reflexivity.
     + intros W _. eapply wgood_rm; eauto; reflexivity.
+  - (* preemption dry-run *) cbn [fst]. auto.
 Qed.
